@@ -81,8 +81,8 @@ ASSUMPTIONS = [
     "P(Y|do(X)) in every compatible model) are proved for inputs whose source domains DECLARE no experiment; 'no experiment "
     "is usable although some are declared' is proved in Props/C05Usable (trso_no_usable_surrogate_iff_id and companions) with "
     "'usable' made precise as the executable predicate identifyUsesLine6 = 'at some state of the run line 6 (trso_line6) returns "
-    "a non-empty dict or fails' (it inspects every c-component at line 4, the Python loop stops at the first refusal: an "
-    "over-approximation, so the hypothesis 'never used' is slightly stronger than necessary); that reading of 'usable' is an "
+    "a non-empty dict or fails' (identifyUsesLine6x follows the Python loop of line 4 exactly; identifyUsesLine6 inspects every "
+    "c-component, an over-approximation); that reading of 'usable' is an "
     "assumption about the property text; the predicate is compared with a spy on the real trso_line6 on every run (stream uses6)",
     "trso_no_internal_error (last sentence) is PROVED for the Lean model for ALL validated inputs (Props/C05 "
     "trso_no_internal_error: identify_target_outcomes returns an estimand or 'no estimand', no exception of any kind, in "
@@ -1174,8 +1174,11 @@ def _run_uses6(case):
 
 
 class Uses6Out(list):
-    """model side of a `uses6` case: [m] with m = identifyUsesLine6.  Equal to the Python's ["uses6", valid, p, tv, iv] when
-    (p => m) and (not m and the input is valid and both verdicts are known => tv == iv)."""
+    """model side of a `uses6` case: [x, m] with x = identifyUsesLine6x (EXACT: line 4 inspects a later component only if every
+    earlier one returned an estimand, as the Python loop does) and m = identifyUsesLine6 (the over-approximation).  Equal to the
+    Python's ["uses6", valid, p, tv, iv] when x => m, p => m (whatever the real run or the exact predicate saw, the
+    over-approximation sees it) and (not x and the input is valid and both verdicts are known => tv == iv: the conclusion of
+    trso_line6_unused_iff_id, on the real code)."""
     stats = {"both_used": 0, "both_unused": 0, "model_only": 0}
 
     def __ne__(self, other):
@@ -1185,12 +1188,16 @@ class Uses6Out(list):
         if not isinstance(other, list) or len(other) != 5 or other[0] != "uses6":
             return False
         _, valid, p, tv, iv = other
-        m = bool(self[0])
-        if p and not m:
+        x, m = bool(self[0]), bool(self[1])
+        if (x or p) and not m:
             return False
-        if valid and not m and iv != "?" and tv in ("none", "estimand") and tv != iv:
+        # (p == x is NOT demanded: which c-components line 4 visits before the first refusal depends on the iteration order of a
+        # Python set of frozensets, which the model fixes as sorted order; the verdict does not depend on it.  Measured: 11 of 1500.)
+        if valid and p != x:
+            Uses6Out.stats["order_dependent"] = Uses6Out.stats.get("order_dependent", 0) + 1
+        if valid and not x and iv != "?" and tv in ("none", "estimand") and tv != iv:
             return False
-        Uses6Out.stats["both_used" if p and m else "both_unused" if not m else "model_only"] += 1
+        Uses6Out.stats["both_used" if x else "both_unused" if not m else "model_only"] += 1
         return True
 
     __hash__ = None
@@ -1263,7 +1270,8 @@ class SemOut(list):
 def canon_model(case, rep):
     k = case["kind"]
     if k == "uses6":
-        return Uses6Out([rep[0] == "ok" and str(rep[1]) in ("true", "True")])
+        tr = lambda v: str(v) in ("true", "True")   # noqa: E731
+        return Uses6Out([rep[0] == "ok" and tr(rep[1]), rep[0] == "ok" and tr(rep[2])])
     if rep[0] == "err":
         return ["err", "invalid" if rep[1] == "invalid" else "internal"]
     if rep[0] == "none":
@@ -1339,7 +1347,7 @@ def _report():
     u = Uses6Out.stats
     if sum(u.values()):
         print(f"[C05] uses6 (hypothesis of trso_no_usable_surrogate_iff_id on the real run): used by both={u['both_used']} "
-              f"unused by both={u['both_unused']} model-only (line-4 over-approximation)={u['model_only']}", file=sys.stderr)
+              f"unused by both={u['both_unused']} over-approximation only (identifyUsesLine6 true, exact predicate false)={u['model_only']} real run and exact predicate differ (set iteration order at line 4)={u.get('order_dependent', 0)}", file=sys.stderr)
     s = SemOut.stats
     if sum(s.values()):
         print(f"[C05] estimand correspondence: structural={s['structural']} semantic_only={s['semantic_only']} "
@@ -1394,8 +1402,12 @@ MANIFEST = {
              "equals ID's in every compatible model (trso_no_usable_surrogate_iff_id, _none_iff_id, _no_error, "
              "trso_sound_no_usable_surrogate, trso_no_usable_surrogate_den_eq_id); the `_partial` theorems (no experiment DECLARED) "
              "are the special case identifyUsesLine6_of_no_declared; a bow graph with an experiment on the treatment shows the "
-             "hypothesis cannot be dropped. The predicate is tied to the real run on every check (stream `uses6`: a spy on "
-             "trso_line6; real-run-used => model-says-used, model-says-unused => TRSO's and ID's real verdicts agree). All clauses are also decided on every run by the correspondence plus the "
+             "hypothesis cannot be dropped; the EXACT predicate identifyUsesLine6x (line 4 inspects a later c-component only if every earlier "
+             "one returned an estimand, as the Python loop does) gives the same five theorems under the weaker hypothesis "
+             "(trso_line6_unused_iff_id, ..., usesLine6x_le). Both predicates are tied to the real run on every check (stream `uses6`: a "
+             "spy on trso_line6; whatever the real run or the exact predicate sees the over-approximation sees, and whenever the exact "
+             "predicate is false TRSO's and ID's real verdicts agree; the real run and the exact predicate themselves can differ "
+             "because line 4 walks a Python set of frozensets). All clauses are also decided on every run by the correspondence plus the "
              "exact-rational multi-domain oracle, which evaluates every returned estimand at every value assignment on two "
              "random compatible families, by an independent re-computation of get_nodes_to_transport for every declared "
              "domain of every case, by comparison with identify_outcomes on every no-surrogate case, and by treating "
